@@ -2,6 +2,7 @@ SPECIFICATION Spec
 CONSTANTS
   PWSeq <- PW3
   HAlgs = {"rc4_40", "rc4_128", "aes_128", "aes_256", "aes_256_r6"}
+  DeepAlgs = {"rc4_40", "rc4_128", "aes_128", "aes_256", "aes_256_r6"}
   MaxLen = 4
   ProbeAll = TRUE
   Emit = TRUE
